@@ -62,6 +62,24 @@ def uf_apply(tag, items, out_len):
     return SymSeq("bytes", out)
 
 
+def _bind_point(tag, items, digest):
+    """a concrete evaluation: the uninterpreted function agrees with the real hash at this point"""
+    ex = core.CUR
+    if ex is None or not items:
+        return
+    import z3
+    n = len(items)
+    key = (tag, n, len(digest))
+    f = _UF.get(key)
+    if f is None:
+        return          # never applied symbolically so far on any path: nothing to bind
+    if n > 200:
+        return
+    ex.pc.append(f(z3.BitVecVal(int.from_bytes(bytes(items), "big"), 8 * n)) == z3.BitVecVal(int.from_bytes(digest, "big"), 8 * len(digest)))
+    ex.model = None
+    ex._ensure_model()      # the path so far may have assumed another value for this hash: then it is infeasible
+
+
 class _Hash:
     def __init__(self, alg, data=b""):
         alg = alg.lower()
@@ -84,7 +102,9 @@ class _Hash:
 
     def digest(self):
         if all(isinstance(i, int) for i in self._items):
-            return _real_new(self.name, bytes(self._items)).digest()
+            d = _real_new(self.name, bytes(self._items)).digest()
+            _bind_point(self.name, self._items, d)
+            return d
         return uf_apply(self.name, self._items, self.digest_size)
 
     def hexdigest(self):
